@@ -21,7 +21,7 @@ RULE = (
     "rejected; distinct by hash of (read set, k, options)."
 )
 EXHAUSTIVE = {"quick": False, "thorough": False}
-REQUIRED_COUNTERS = ["selections", "postcond_checked", "covmon_add_events", "covmon_query_events", "rejected_reads_checked_maximal"]
+REQUIRED_COUNTERS = ["selections", "postcond_checked", "covmon_add_events", "covmon_query_events", "rejected_reads_checked_maximal", "pipe_runs_ok", "solver_columns_checked", "select_calls_checked"]
 ASSUMPTIONS = [
     "every read covers >= 2 variants (documented precondition of readselection)",
     "the coverage monitor is observed through a recording subclass of whatshap.coverage.CovMonitor installed as the module "
@@ -33,8 +33,63 @@ SHAPES4 = [(0, 1), (0, 1, 2), (0, 1, 2, 3), (1, 2), (1, 2, 3), (2, 3), (0, 2), (
 
 def lanes(tier):
     if tier == "quick":
-        return [("direct", "plain", 400), ("san", "san", 80)]
-    return [("direct", "plain", 6000), ("san", "san", 800)]
+        return [("direct", "plain", 400), ("san", "san", 80), ("pipe", "plain", 96)]
+    return [("direct", "plain", 6000), ("san", "san", 800), ("pipe", "plain", 1600)]
+
+
+def run_pipe(rng, counters):
+    """whatshap phase on deep data: active reads per solver column <= k; per-sample cap = max(1, k // |family|)."""
+    import os
+    import shutil
+    import tempfile
+
+    from wv import pipeline
+    from wv.gen import genome
+
+    tmp = tempfile.mkdtemp(prefix="c07-", dir=os.environ.get("WV_SCRATCH"))
+    try:
+        mode = rng.choice(["single", "single", "trio", "quartet", "multi"])
+        if mode == "single":
+            samples, ped = ["sampleA"], []
+        elif mode == "multi":
+            samples, ped = ["sampleA", "sampleB"], []
+        elif mode == "trio":
+            samples, ped = ["dad", "mom", "kid"], [("dad", "mom", "kid")]
+        else:
+            samples, ped = ["dad", "mom", "kid1", "kid2"], [("dad", "mom", "kid1"), ("dad", "mom", "kid2")]
+        k = rng.choice([2, 3, 4, 5, 6, 7, 8, 9, 10, 11, 12, 13, 14, 15])
+        p = {"n_chrom": 1, "chrom_len": 2500, "n_var": rng.randint(6, 20), "kinds": ["snv"], "samples": samples, "pedigree": ped,
+             "depth": rng.choice([10, 25, 50]), "read_len": rng.choice([(150, 500), (300, 1200)]), "paired": rng.choice([0.0, 0.5]),
+             "end_policy": "clean", "error_rate": rng.choice([0.0, 0.02]), "het_prob": 0.8}
+        sim = genome.simulate(rng, tmp, p)
+        inputs = list(sim.bams)
+        with_vcf = rng.random() < 0.4
+        if with_vcf:
+            doc, _ = genome.truth_phased_doc(sim, rng, tag="PS", block_len=(2, 6), interleave=rng.random() < 0.5)
+            pv = os.path.join(tmp, "phased_input.vcf")
+            doc.write(pv)
+            inputs.append(pv)
+        ro = {"reference": False, "max_coverage": k}
+        if ped:
+            ro["ped"] = sim.ped
+        status, trace, msg = pipeline.run_phase(sim, os.path.join(tmp, "out.vcf"), phase_inputs=inputs, **ro)
+        desc = {"mode": mode, "k": k, "depth": p["depth"], "with_phased_vcf": with_vcf, "n_reads": len(sim.reads),
+                "first_variants": [v.as_list() for v in sim.variants["chr1"][:4]]}
+        if status != "ok":
+            if status == "cle":
+                return [], False, desc
+            return [pipeline.crash_violation(msg)], False, desc
+        counters["pipe_runs_ok"] = counters.get("pipe_runs_ok", 0) + 1
+        if with_vcf:
+            counters["pipe_runs_with_phased_vcf"] = counters.get("pipe_runs_with_phased_vcf", 0) + 1
+        v = pipeline.judge_cap(trace, k, counters)
+        reached = any(
+            max((sum(1 for r in i["reads"] if r["vars"][0][0] <= q <= r["vars"][-1][0]) for q in i["positions"]), default=0) >= max(1, k // len(i["family"])) * len(i["family"]) - 0
+            for i in trace["instances"] if "reads" in i and i["positions"]
+        )
+        return v, reached, desc
+    finally:
+        shutil.rmtree(tmp, ignore_errors=True)
 
 
 class Viol(Exception):
@@ -238,6 +293,18 @@ def run_case(idx, rng, tier, lane):
     sample = None
     case = None
     nex = 32
+    if lane == "pipe":
+        for _ in range(4):
+            v, nt, desc = run_pipe(rng, counters)
+            for x in v:
+                x["data"] = desc
+            viol += v
+            if nt:
+                keys.add(hashlib.sha1(json.dumps(desc, sort_keys=True).encode()).hexdigest()[:16])
+            sample = desc
+        seen = set()
+        viol = [x for x in viol if not (x["mech"] in seen or seen.add(x["mech"]))]
+        return {"nontrivial": bool(keys), "key": sorted(keys), "violations": viol, "counters": counters, "sample": sample, "case": None}
     try:
         if idx < nex and lane == "direct":
             _exhaustive(idx, nex, tier, counters, keys)
